@@ -13,6 +13,7 @@ import (
 	"strconv"
 	"strings"
 	"sync"
+	"time"
 
 	"github.com/gotd/td/telegram/downloader"
 	"github.com/gotd/td/tg"
@@ -39,6 +40,11 @@ type dlMock struct {
 	evDone bool
 	nCDN   int
 	nData  int
+	// observations for the stalled-writer schedule
+	sawLast   chan struct{} // the request that contains the last byte of the file was served
+	sawBeyond chan struct{} // a request at or beyond the end of the file was served
+	lastOnce  sync.Once
+	beyOnce   sync.Once
 }
 
 // view returns what the (possibly adversarial) server serves for [off, off+limit).
@@ -133,6 +139,14 @@ func (m *dlMock) UploadGetFile(ctx context.Context, r *tg.UploadGetFileRequest) 
 		return nil, tgerr.New(500, tg.ErrTimeout)
 	}
 	m.nData++
+	if m.sawLast != nil {
+		size := int64(len(m.file))
+		if r.Offset >= size {
+			m.beyOnce.Do(func() { close(m.sawBeyond) })
+		} else if r.Offset+int64(r.Limit) >= size {
+			m.lastOnce.Do(func() { close(m.sawLast) })
+		}
+	}
 	return &tg.UploadFile{Type: &tg.StorageFileJpeg{}, Bytes: m.view(r.Offset, r.Limit)}, nil
 }
 func (m *dlMock) UploadGetFileHashes(ctx context.Context, r *tg.UploadGetFileHashesRequest) ([]tg.FileHash, error) {
@@ -197,6 +211,11 @@ type recWriter struct {
 	dups int
 	bad  bool
 	ref  []byte
+	// stalled-writer schedule: the first write waits until the last part was fetched (every worker is then blocked
+	// behind the full queue), the second one (it frees exactly one queue slot) until the freed worker's next request
+	// has been served or a bounded time has passed
+	stall *dlMock
+	nw    int
 }
 
 func (w *recWriter) check(p []byte, off int64) {
@@ -208,6 +227,26 @@ func (w *recWriter) check(p []byte, off int64) {
 	}
 }
 func (w *recWriter) WriteAt(p []byte, off int64) (int, error) {
+	if w.stall != nil {
+		w.mu.Lock()
+		w.nw++
+		n := w.nw
+		w.mu.Unlock()
+		switch n {
+		case 1:
+			select {
+			case <-w.stall.sawLast:
+				time.Sleep(30 * time.Millisecond)
+			case <-time.After(3 * time.Second):
+			}
+		case 2:
+			select {
+			case <-w.stall.sawBeyond:
+				time.Sleep(30 * time.Millisecond)
+			case <-time.After(400 * time.Millisecond):
+			}
+		}
+	}
 	w.mu.Lock()
 	defer w.mu.Unlock()
 	if need := int(off) + len(p); need > len(w.buf) {
@@ -288,6 +327,10 @@ func init() {
 			b = b.WithVerify(true)
 		}
 		w := &recWriter{seen: map[int64]int{}, ref: m.file}
+		if tr.Str(in["writer"]) == "stall" {
+			m.sawLast, m.sawBeyond = make(chan struct{}), make(chan struct{})
+			w.stall = m
+		}
 		var typ tg.StorageFileTypeClass
 		var err error
 		mode := tr.Str(in["mode"])
